@@ -340,21 +340,28 @@ def worker_main(mod, w, nworkers, seed, tier, cfg, deadline, outpath):
         os.replace(outpath + ".tmp", outpath)
 
     poisoned = False
-    while i < max_runs and time.time() < deadline and not poisoned:
+    # determinism self-test first: re-run index j in a *different* worker than the one
+    # that runs it in the main loop (for in-process checks also after a different
+    # history of runs); the parent compares the digests afterwards
+    for j in range(nself):
+        if (j + 1) % nworkers == w and j < max_runs and not poisoned and time.time() < deadline:
+            res = run_one(mod, derive_seed(seed, prop, j), None, tier, timeout)
+            agg.add(j, res, recheck=True)
+            poisoned = bool(res.get("poisoned"))
+    spent = []
+    while i < max_runs and not poisoned:
+        now = time.time()
+        est = (sum(spent) / len(spent)) if spent else 0.0
+        if now + 0.6 * est > deadline:
+            break
         res = run_one(mod, derive_seed(seed, prop, i), None, tier, timeout, want_plan=(i < 3))
+        spent.append(time.time() - now)
         agg.add(i, res)
         poisoned = bool(res.get("poisoned"))
         i += nworkers
         if time.time() - last_flush > 5:
             flush()
             last_flush = time.time()
-    # determinism self-test: re-run index j in a *different* worker than the one that ran
-    # it (for in-process checks that also means after a different history of runs)
-    for j in range(nself):
-        if (j + 1) % nworkers == w and j < max_runs and not poisoned:
-            res = run_one(mod, derive_seed(seed, prop, j), None, tier, timeout)
-            agg.add(j, res, recheck=True)
-            poisoned = bool(res.get("poisoned"))
     flush()
 
 
